@@ -127,6 +127,10 @@ def run_case(darsia, rng, tid, c):
             # many orders larger than the masses; "linear-solver precision" of the mass rows is then this residual)
             r = float(np.abs(M @ np.asarray(out[0], dtype=float) - b).max()) / scale
             calls["linres"] = max(calls.get("linres", 0.0), r)
+            # ... and relative to the size of the system's own right-hand side (whatever the magnitude of the data)
+            bmax = float(np.abs(b).max())
+            if bmax > 1e-8 * scale:        # (a right-hand side that is itself round-off of the masses carries no information)
+                calls["linown"] = max(calls.get("linown", 0.0), float(np.abs(M @ np.asarray(out[0], dtype=float) - b).max()) / bmax)
         except Exception:
             pass
         return out
@@ -233,7 +237,8 @@ def run_case(darsia, rng, tid, c):
     pscale = max(1.0, float(np.abs(np.asarray(info["pressure"])).max()))
     ev.append(dict(base, op="end", raised=0, converged=int(bool(info["converged"])), critmet=int(critmet and not faulted),
                    retver=retver, dexp=exponent(drel), mbexp=mb(uret), linexp=lin(), pinexp=exponent(abs(pin) / pscale),
-                   cfexp=cfe, tdexp=tde, pblkexp=pblk, pnewtexp=pnewt, earlyexit=int(bool(np.isnan(dist))), niter=int(info["number_iterations"]), ncompleted=ncompleted))
+                   cfexp=cfe, tdexp=tde, pblkexp=pblk, pnewtexp=pnewt, linownexp=exponent(calls.get("linown", 0.0)),
+                   direct=int(opts.get("linear_solver", "direct") == "direct"), earlyexit=int(bool(np.isnan(dist))), niter=int(info["number_iterations"]), ncompleted=ncompleted))
     if c.get("second"):
         # the same solver object is used again for another pair of masses: (1) what the first call returned is the caller's and
         # stays as it was, (2) the second result is what a fresh solver object returns for that pair
@@ -365,6 +370,13 @@ def configs(rng, quick, terminals):
                         "opts": {"num_iter": 40, "formulation": "pressure", "linear_solver": "direct", "L": 1.0 if method == "bregman" else 1e-2,
                                  "tol_distance": 1e-4, "verbose": verbose},
                         "mass": "dense", "mseed": 4242, "fault": None, "adaptive": False, "weight": None})
+    # micrometre voxels (cell volumes of 1e-18, integrated masses far below machine epsilon in absolute terms) and kilometre
+    # voxels: the mass balance is relative to the masses
+    for method in ("newton", "bregman"):
+        for hh in ([1e-6, 1e-6, 1e-6], [2e3, 1e3, 5e2]):
+            out.append({"shape": [3, 2, 2], "h": hh, "method": method, "l1": rng.choice(l1s), "mob": rng.choice(mobs),
+                        "opts": {"num_iter": 5, "formulation": rng.choice(["pressure", "full"]), "linear_solver": "direct", "L": 1.0 if method == "bregman" else 1e-2},
+                        "mass": "dense", "mseed": rng.randrange(10 ** 6), "fault": None, "adaptive": False, "weight": None})
     # nearly identical distributions on a large common background: the mass balance is that of the small difference
     for method in ("newton", "bregman"):
         for (form, ls) in (("pressure", "direct"), ("full", "direct")):
